@@ -41,6 +41,8 @@ def mkenv():
 def num(x):
     """the value as Python sees it (numpy scalars unwrapped); NOT converted to float: 3**40 and 3.0**40 are different numbers"""
     x = x.item() if hasattr(x, "item") and not isinstance(x, (int, float)) else x
+    if isinstance(x, complex):
+        return x                        # (a negative base under a fractional power: Python's result is complex)
     if isinstance(x, bool) or not isinstance(x, (int, float)):
         return float(x)
     return x
@@ -71,13 +73,42 @@ def three(env, s, mirror=None, ns=None):
         except Exception as ex:
             out.append(type(ex).__name__)
     return out
-def agree(vals, has_pow=False):
+import ast as _ast
+class _DivT(_ast.NodeTransformer):
+    def visit_BinOp(self, n):
+        self.generic_visit(n)
+        if isinstance(n.op, _ast.Div):
+            return _ast.copy_location(_ast.Call(func=_ast.Name(id="_div", ctx=_ast.Load()), args=[n.left, n.right], keywords=[]), n)
+        return n
+def _div(a, b):
+    try:
+        return a / b
+    except ZeroDivisionError:
+        return float("nan")
+def nan_mirror(mirror, ns):
+    """what the statement prescribes for the deferred form: Python arithmetic on the fully parenthesised mirror in which a division
+    by zero yields NaN (which then propagates by IEEE rules: nan ** 0 == 1.0, 1.0 ** nan == 1.0)"""
+    tree = _ast.fix_missing_locations(_DivT().visit(_ast.parse(mirror, mode="eval")))
+    try:
+        return num(eval(compile(tree, "<mirror>", "eval"), {"math": math, "_div": _div}, dict(ns)))
+    except ZeroDivisionError:
+        return "ZeroDivisionError"
+    except Exception as ex:
+        return type(ex).__name__
+def agree(vals, has_pow=False, expect=None):
     """deferred vs the others: equal numbers; NaN deferred where the others raise ZeroDivisionError (a zero raised to a
     negative power is not a division: there the deferred form raises like the immediate one)"""
     d = vals[0]
     for o in vals[1:]:
-        if o == "ZeroDivisionError":
-            if not ((isinstance(d, float) and d != d) or (has_pow and d == "ZeroDivisionError")):
+        if o == "ZeroDivisionError" and expect is not None:
+            # somewhere a division by zero: the deferred value is the NaN-propagating reading of the same expression
+            if isinstance(expect, str) or isinstance(d, str):
+                if expect != d:
+                    return False
+            elif not same(d, expect):
+                return False
+        elif o == "ZeroDivisionError":
+            if not ((isinstance(d, (float, complex)) and d != d) or (has_pow and d == "ZeroDivisionError")):
                 return False
         elif isinstance(o, str) or isinstance(d, str):
             if o != d:
@@ -143,7 +174,7 @@ def main():
             rac.exhaustive = False
             break
         env = mkenv()
-        scr = PRELUDE + SRC + f"env = mkenv()\ns = {s!r}; mirror = {mirror!r}\nvals = three(env, s, mirror, pyns(env))\nprint(vals)\nassert agree(vals, {("^" in s or "**" in s)!r}), vals\n"
+        scr = PRELUDE + SRC + f"env = mkenv()\ns = {s!r}; mirror = {mirror!r}\nvals = three(env, s, mirror, pyns(env))\nprint(vals)\nassert agree(vals, {("^" in s or "**" in s)!r}, nan_mirror(mirror, pyns(env))), vals\n"
         try:
             ex = env.madexpr(s)
         except Exception as ex_:      # noqa  (not a sentence of the grammar)
@@ -160,9 +191,10 @@ def main():
             except Exception as e2:     # noqa
                 d = type(e2).__name__
             vals = three(env, s, mirror, pyns(env))
-            scr += f"vals = three(env, s, mirror, pyns(env)); print({label!r}, vals); assert agree(vals, {("^" in s or "**" in s)!r}), ({label!r}, vals)\n"
+            scr += f"vals = three(env, s, mirror, pyns(env)); print({label!r}, vals); assert agree(vals, {("^" in s or "**" in s)!r}, nan_mirror(mirror, pyns(env))), ({label!r}, vals)\n"
             hp = "^" in s or "**" in s
-            if not agree(vals, hp) or not agree([d, vals[1]], hp):
+            expct = nan_mirror(mirror, pyns(env))
+            if not agree(vals, hp, expct) or not agree([d, vals[1]], hp, expct):
                 bad = (label, [d] + vals)
                 break
         rac.case(s, nontrivial=any(c in s for c in "+-*/^("), sample=s)
